@@ -45,7 +45,7 @@ ASSUMPTIONS = [
 DIMS = [
     "clock_start", "clock_step", "hash_seed", "aged_process", "cold_process", "cwd", "in_location", "out_location",
     "spelling", "enum", "umask", "env", "lookup_via_env", "input_meta", "tpl_location", "machine_history", "py_flags",
-    "out_preexists", "in_creation_order",
+    "out_preexists", "in_creation_order", "sys_path",
 ]  # fmt: skip
 T0 = 1750000000.0
 
@@ -174,6 +174,10 @@ def _perturb(r: Rng, dims: typing.List[str], worker_hash_seed: int) -> dict:
         elif d == "out_preexists":
             # the output directory is there already (empty, or holding an unrelated file in a sub-directory of its own)
             w[d] = r.choice(["empty", "unrelated", "empty-0700"])
+        elif d == "sys_path":
+            # the module search path holds more than the tool: another project's directory with stale packaging metadata of
+            # some other nunavut release (not the code that runs), unrelated modules
+            w[d] = r.choice(["stale_dist_info", "stale_egg_info", "unrelated_modules"])
         elif d == "in_creation_order":
             # the input files were created in another order (other inode numbers, other raw directory order)
             w[d] = r.choice(["reverse", "shuffled"])
@@ -464,6 +468,22 @@ def run_case(case: dict, ctx: dict) -> dict:
                     po.pop(k, None)
             prior = proc.run_invocation(world.invocation(po, **{k: v for k, v in plan.items() if k != "prelude"}))
             bump("probes", "earlier_process_on_same_machine:%s" % ("ok" if nnvg.succeeded(prior) else "failed"))
+        if delta.get("sys_path"):
+            extra = os.path.join(machine, "other-project")
+            os.makedirs(extra, exist_ok=True)
+            with open(os.path.join(extra, "helpers_of_other_project.py"), "w") as f:
+                f.write("VALUE = 1\n")
+            if delta["sys_path"] == "stale_dist_info":
+                os.makedirs(os.path.join(extra, "nunavut-0.9.1.dist-info"))
+                with open(os.path.join(extra, "nunavut-0.9.1.dist-info", "METADATA"), "w") as f:
+                    f.write("Metadata-Version: 2.1\nName: nunavut\nVersion: 0.9.1\nSummary: stale\n")
+                with open(os.path.join(extra, "nunavut-0.9.1.dist-info", "RECORD"), "w") as f:
+                    f.write("")
+            elif delta["sys_path"] == "stale_egg_info":
+                os.makedirs(os.path.join(extra, "nunavut.egg-info"))
+                with open(os.path.join(extra, "nunavut.egg-info", "PKG-INFO"), "w") as f:
+                    f.write("Metadata-Version: 2.1\nName: nunavut\nVersion: 0.9.1\n")
+            plan["sys_path_prepend"] = [extra]
         inv = world.invocation(o, **plan)
         locale_env = {k: v for k, v in env.items() if k in ("LC_ALL", "LANG", "LC_CTYPE", "PYTHONUTF8", "PYTHONCOERCECLOCALE", "PYTHONIOENCODING")}
         if delta.get("hash_seed") is not None or delta.get("cold_process") or locale_env or delta.get("py_flags"):
